@@ -714,20 +714,22 @@ def check_c18(tier, seed):
     samples = 512 if tier == "quick" else 20000
     crash_viols = []
     try:
-        det = selftest_determinism("sse2-rel", seed, [["c18p", "--samples", 8], ["c18m", "--rounds", 1]], seeds=2 if tier == "quick" else 8)
+        det = selftest_determinism("sse2-rel", seed, [["c18p", "--samples", 8], ["c18m", "--rounds", 1], ["c18i", "--samples", 20]], seeds=2 if tier == "quick" else 8)
     except CrashFound as e:
         det = {"aborted_by_memory_fault": e.what}
         crash_viols.append(crash_violation(e, seed, "Guarded"))
-    results_m, results_p = [], []
+    results_m, results_p, results_i = [], [], []
     for c in cfgs:
         try:
             results_m.append((c, run_sim(c, ["c18m", "--seed", seed, "--rounds", rounds])))
         except CrashFound as e:
             crash_viols.append(crash_violation(e, seed, "Guarded"))
         results_p.append((c, run_sim(c, ["c18p", "--seed", seed, "--samples", samples if c != "sse2-dbg" else max(8, samples // 8), "--workers", NCPU])))
+        results_i.append((c, run_sim(c, ["c18i", "--seed", seed, "--samples", 300 if tier == "quick" else 20000, "--workers", NCPU])))
     viols, fired, effective, probes = list(crash_viols), {}, {}, {}
     evals = collect(results_m, viols, fired, effective, probes)
     evals += collect(results_p, viols, fired, effective, probes)
+    evals += collect(results_i, viols, fired, effective, probes)
     monitors = {}
     # machine-level monitors: Miri (quick: subset of lengths/offsets; thorough: full product, 3 backends), ASan (thorough)
     miri_cfgs = ["miri"] if tier == "quick" else ["miri", "miri-scalar", "miri-coresimd"]
@@ -781,7 +783,9 @@ def check_c18(tier, seed):
         "rule": "(M) every slice function x length 0..N+4 x misalignment 0..3 elements x placement {tail-guard, head-guard, interior+canaries} "
                 "and every index function x index in {0..limit+2, usize::MAX}, enumerated completely, contents ordinal then seeded; "
                 "(P) every public function/operator/trait method of the float types (from rustdoc JSON of the working tree) x every argument "
-                "position x every special-value-lattice entry (uniform and single-lane), lattice products, plus seeded samples; "
+                "position x every special-value-lattice entry (uniform, and every single element), lattice products, two-element and fully mixed "
+                "seeded samples; (I) every lane-wise operator of the 27 integer vector types x edge values in every lane pair: panics iff the "
+                "primitive panics in this build, lanes equal otherwise; "
                 "distinct = distinct memory cases + distinct argument tuples actually executed (max over configurations)",
         "exhaustive": False,
         "samples": refm["samples"][:3] + refp["samples"][:3],
@@ -790,6 +794,9 @@ def check_c18(tier, seed):
         "memory_cases_per_config": {c: r["evaluations"] for c, r in results_m},
         "memory_extra": refm["extra"],
         "hostile_calls_per_config": {c: r["evaluations"] for c, r in results_p},
+        "integer_operator_cases_per_config": {c: r["evaluations"] for c, r in results_i},
+        "integer_operators": results_i[0][1]["extra"]["integer_ops"],
+        "integer_primitive_panics_matched_per_config": {c: r["faults_effective"].get("INT_EDGE_VALUE", 0) for c, r in results_i},
         "ops_per_config": {c: r["extra"]["ops"] for c, r in results_p},
         "fault_kinds_fired": fired,
         "fault_kinds_effective": effective,
